@@ -110,15 +110,13 @@ def sum_ite(threeD):
 
 
 def step_hint(threeD):
-    zl = axis_lemma(2, 'pz', 'wz') if threeD else 'ite(jzw == cz, wz, 0) == AX2(0, cz)'
+    pz = 'pz' if threeD else 'PX2(n - 1)'
+    zl = axis_lemma(2, 'pz', 'wz') if threeD else f'ite(jzw == cz, wz, 0) == AX2({pz}, cz)'
     return ('forall_intro forall((cx, cy, cz), ' + INCELL +
-            ', density[cx, cy, cz] == iter_old(density[cx, cy, cz]) + DEP(W, px, py, pz, cx, cy, cz)) using ' +
+            f', density[cx, cy, cz] == iter_old(density[cx, cy, cz]) + DEP(W, px, py, {pz}, cx, cy, cz)) using ' +
             ' ;; '.join(cell_lets(threeD) + [axis_lemma(0, 'px', 'wx'), axis_lemma(1, 'py', 'wy'), zl,
                                              f'density[cx, cy, cz] == iter_old(density[cx, cy, cz]) + {sum_ite(threeD)}',
-                                             f'{sum_ite(threeD)} == DEP(W, px, py, pz, cx, cy, cz)']))
-
-
-STEP = step_hint(True)
+                                             f'{sum_ite(threeD)} == DEP(W, px, py, {pz}, cx, cy, cz)']))
 
 
 def req(with_offset, zthin):
@@ -134,28 +132,47 @@ def req(with_offset, zthin):
     return r
 
 
-def grid_hints(with_offset):
+def grid_hints(with_offset, at='n'):
     """the grid coordinate stays in [0, g + 1/2]: the only non-linear step, proved once per axis and then used linearly"""
-    hs = {}
-    key = 'ix = ' if True else None
-    lst = []
+    out = {}
     for a, v in enumerate(('px', 'py', 'pz')):
-        lst += [f'positions[n, {a}] >= 0 and positions[n, {a}] <= boxsize', f'{v} == PX{a}(n)',
-                f'0 <= {v} and {v} <= density.shape[{a}] + 1/2' if with_offset else f'0 <= {v} and {v} <= density.shape[{a}]']
-    return lst
+        hi = f'density.shape[{a}] + 1/2' if with_offset else f'density.shape[{a}]'
+        out[a] = [f'positions[{at}, {a}] >= 0 and positions[{at}, {a}] <= boxsize', f'{v} == PX{a}({at})',
+                  f'0 <= {v} and {v} <= {hi}']
+    return out
+
+
+NAMED = ['px', 'py', 'pz', 'W', 'inv_hx', 'inv_hy', 'inv_hz', 'wx', 'wxm1', 'wxp1', 'wy', 'wym1', 'wyp1', 'wz', 'wzm1', 'wzp1',
+         'dx', 'dy', 'dz']
+
+
+def loop_spec(with_offset, zthin):
+    gh = grid_hints(with_offset)
+    end = ['W == WN(n - 1)', 'px == PX0(n - 1)', 'py == PX1(n - 1)']
+    if zthin:
+        hi = 'density.shape[2] + 1/2' if with_offset else 'density.shape[2]'
+        end += ['positions[n - 1, 2] >= 0 and positions[n - 1, 2] <= boxsize', f'0 <= PX2(n - 1) and PX2(n - 1) <= {hi}']
+    else:
+        end += ['pz == PX2(n - 1)']
+    return LoopSpec(invariant=[INV, 'implies(weights is None, W == 1)'],
+                    body_asserts={'ix = ': gh[0], 'iy = ': gh[1], 'iz = ': gh[2]},
+                    asserts=end + [step_hint(not zthin)])
 
 
 def spec_tsc(weights, zthin):
-    hints = grid_hints(True)
     return FnSpec(TSC, '_tsc_scatter', prop='C06', name=f'_tsc_scatter[weights={weights},z={"1" if zthin else ">=2"}]',
                   args=dict(positions='real[:,3]!ro', density='real[:,:,:]', boxsize='real',
                             weights='real[:]!ro' if weights else None, offset='real'),
                   ghosts=make_ghosts(K_tsc, True), requires=req(True, zthin), ensures=[POST], frame=['density'],
-                  inline=['_rightwrap'], check_fits=True, name_values=['px', 'py', 'pz', 'W', 'inv_hx', 'inv_hy', 'inv_hz', 'wx', 'wxm1', 'wxp1', 'wy', 'wym1', 'wyp1', 'wz', 'wzm1', 'wzp1'],
-                  loops={0: LoopSpec(invariant=[INV, 'implies(weights is None, W == 1)'],
-                                     body_asserts={'ix = itype(round(px))': hints[0:6], 'iy = itype(round(py))': hints[3:6],
-                                                   'iz = itype(round(pz))': hints[6:9]},
-                                     asserts=['W == WN(n - 1)', 'px == PX0(n - 1)', 'py == PX1(n - 1)', 'pz == PX2(n - 1)', STEP])})
+                  inline=['_rightwrap'], check_fits=True, name_values=NAMED, loops={0: loop_spec(True, zthin)})
+
+
+def spec_cic(weights, zthin):
+    return FnSpec(CIC, 'cic_serial', prop='C06', name=f'cic_serial[weights={weights},z={"1" if zthin else ">=2"}]',
+                  args=dict(positions='real[:,3]!ro', density='real[:,:,:]', boxsize='real',
+                            weights='real[:]!ro' if weights else None),
+                  ghosts=make_ghosts(K_cic, False), requires=req(False, zthin), ensures=[POST], frame=['density'],
+                  inline=['rightwrap'], check_fits=True, name_values=NAMED, loops={0: loop_spec(False, zthin)})
 
 
 def tsc_callee_frame():
@@ -288,7 +305,9 @@ def check(run):
     run.level = 'proof'
     kernel_lemmas(run)
     for weights in (True, False):
-        run.prove(spec_tsc(weights, False), replayer('tsc'))
+        for zthin in (False, True):
+            run.prove(spec_tsc(weights, zthin), replayer('tsc'))
+            run.prove(spec_cic(weights, zthin), replayer('cic'))
     run.discharge()
     bounded(run)
     run.assumptions += ['floats are reals; fastmath ignored', 'positions in [0, BoxSize], offset in [0, half a cell], axes >= 2 cells (z may be 1)',
